@@ -301,6 +301,214 @@ def shard_main(payload):
     return agg
 
 
+
+# ----------------------------------------------------------------------
+# session mode (clause E): a history of invocations on ONE simulated disk
+# ----------------------------------------------------------------------
+SESSION_TARGET = gen_args.W + "state.yaml"
+
+
+def _session_step(rng, fs, step_no):
+    """One invocation drawn against the current disk state."""
+    from sim.util import strict_load
+    text = fs.get(SESSION_TARGET, b"").decode("utf-8", "replace")
+    data, loaded = strict_load(text) if text else (None, False)
+    keys = []
+    if loaded and isinstance(data, dict) and isinstance(data.get("sess"),
+                                                        dict):
+        keys = [str(k) for k in data["sess"]]
+    backup = rng.random() < 0.75
+    roll = rng.random()
+    label = "success"
+    files_extra = {}
+    if roll < 0.35:
+        argv = ["-g", "/sess/k%d" % rng.randrange(6), "-a",
+                rng.choice(["v%d" % step_no, "7", "true", "x y"])]
+        tool = "yaml-set"
+    elif roll < 0.5:
+        key = "k%d" % rng.randrange(6)
+        argv = ["-g", "/sess/" + key, "-D"]
+        tool = "yaml-set"
+        if key not in keys:
+            label = "delete-unmatched"
+    elif roll < 0.62:
+        key = rng.choice(keys) if keys else "k0"
+        argv = ["-g", "/sess/" + key, "-a", "w", "-c",
+                "never-the-current-value"]
+        tool = "yaml-set"
+        label = "failed-check" if keys else "success"
+        if not keys:
+            argv = ["-g", "/sess/k0", "-a", "w"]
+    elif roll < 0.72:
+        argv = ["-g", "/sess/k%d/deeper" % rng.randrange(6), "-a", "v"]
+        tool = "yaml-set"
+        label = "maybe"         # fails when the key holds a scalar
+    elif roll < 0.9:
+        extra = gen_args.W + "extra%d.yaml" % step_no
+        files_extra[extra] = "---\nsess:\n  m%d: merged\nlist:\n  - %d\n" \
+            % (step_no, step_no)
+        argv = ["-w", SESSION_TARGET]
+        if rng.random() < 0.4:
+            argv += ["-A", rng.choice(["all", "unique"])]
+        argv += [SESSION_TARGET, extra]
+        tool = "yaml-merge"
+    else:
+        extra = gen_args.W + "clash%d.yaml" % step_no
+        files_extra[extra] = "---\n- a list\n- into a hash\n"
+        argv = ["-w", SESSION_TARGET, SESSION_TARGET, extra]
+        tool = "yaml-merge"
+        label = "type-clash"
+    if backup:
+        argv = (argv[:2] + ["-b"] + argv[2:]) if tool == "yaml-merge" \
+            else argv + ["-b"]
+    if tool == "yaml-set":
+        argv.append(SESSION_TARGET)
+    return {"tool": tool, "argv": argv, "extra": files_extra,
+            "meta": {"label": label, "targets": [SESSION_TARGET],
+                     "backup": backup, "keep": [], "family": "session"}}
+
+
+def _session_recipe(step, fs, knobs):
+    files = dict(fs)
+    files.update({p: t.encode("utf-8") for p, t in step["extra"].items()})
+    return {"tool": step["tool"], "argv": step["argv"], "files": files,
+            "unreadable": [], "dirs": [], "stdin": "", "tty": True,
+            "stdin_chunks": None, "knobs": knobs, "peer": None,
+            "secrets_seed": 1, "meta": step["meta"]}
+
+
+def run_session(seed, shard, idx):
+    """3-10 invocations, each with at most one fault, on one disk."""
+    from sim.util import strict_load
+    rng = random.Random("%d/%s-session/%d/%d" % (seed, PROP, shard, idx))
+    knobs = gen_args.gen_knobs(rng)
+    fs = {SESSION_TARGET: b"---\nsess:\n  k0: start\nlist:\n  - 0\n",
+          gen_args.W + "other.yaml": b"---\nbystander: 1\n"}
+    history = []
+    stats = {"runs": 0, "steps": 0, "violations": [], "fired": {},
+             "planned": {}, "behaviours": set(), "probes": set(),
+             "operator_restores": 0, "session_steps": 0}
+    for step_no in range(rng.choice([3, 4, 6, 8, 10])):
+        step = _session_step(rng, fs, step_no)
+        recipe = _session_recipe(step, fs, knobs)
+        fs0 = driver.initial_fs(recipe)
+        base = driver.execute(recipe)
+        stats["runs"] += 1
+        plan = None
+        if rng.random() < 0.6:
+            points = [ev for ev in base.trace if ev[1] in FAULTABLE_KINDS]
+            if points:
+                ev = rng.choice(points)
+                fkind, arg = rng.choice(kinds_for(ev[1], ev[2], recipe))
+                if fkind == "oserror" and arg is None:
+                    arg = rng.choice(ERRNOS)
+                if fkind in ("torn-write", "crash-torn", "short"):
+                    arg = rng.choice([0.0, 0.3, 0.5, 0.9])
+                plan = {"kind": fkind, "step": ev[0], "arg": arg}
+        if step["meta"]["label"] == "maybe":
+            step["meta"]["label"] = "impossible-create" \
+                if base.exit != 0 else "success"
+        if plan is None:
+            res = base
+            classes = judge(recipe, fs0, res, False)
+        else:
+            res = driver.execute(recipe, [plan])
+            stats["runs"] += 1
+            stats["planned"][plan["kind"]] = \
+                stats["planned"].get(plan["kind"], 0) + 1
+            if res.fired:
+                stats["fired"][plan["kind"]] = \
+                    stats["fired"].get(plan["kind"], 0) + 1
+                stats["probes"] |= probes(recipe, res, plan)
+            classes = judge(recipe, fs0, res, True, base)
+        stats["steps"] += res.steps
+        stats["session_steps"] += 1
+        history.append({"tool": step["tool"], "argv": step["argv"],
+                        "extra": step["extra"], "meta": step["meta"],
+                        "faults": [plan] if plan else []})
+        stats["behaviours"].add(("session", step["tool"],
+                                 step["meta"]["label"],
+                                 step["meta"]["backup"],
+                                 plan["kind"] if plan else "-",
+                                 res.exit if res.exit in (0, "killed")
+                                 else "nonzero"))
+        for cls in classes:
+            if cls.startswith("ANOMALY"):
+                continue
+            stats["violations"].append(
+                {"class": "E:" + cls, "session": list(history),
+                 "knobs": knobs, "recipe": recipe,
+                 "faults": [plan] if plan else []})
+        if classes:
+            break
+        # the disk after this invocation is the next pre-image; a damaged
+        # target is restored by the "operator" from .bak (or from their own
+        # copy when they chose to run without --backup)
+        fs = dict(res.fs)
+        text = fs.get(SESSION_TARGET, b"").decode("utf-8", "replace")
+        okay = bool(text) and strict_load(text)[1]
+        if not okay or (res.exit != 0 and fs.get(SESSION_TARGET)
+                        != fs0.get(SESSION_TARGET)):
+            bak = fs.get(SESSION_TARGET + ".bak")
+            if step["meta"]["backup"] and bak == fs0[SESSION_TARGET]:
+                fs[SESSION_TARGET] = bak
+            else:
+                fs[SESSION_TARGET] = fs0[SESSION_TARGET]
+            stats["operator_restores"] += 1
+            stats["probes"].add("session-operator-restored-from-backup")
+    return stats
+
+
+def session_shard(payload):
+    seed, shard, lo, hi, _tier = payload
+    agg = {"runs": 0, "steps": 0, "violations": [], "planned": {},
+           "fired": {}, "probes": set(), "behaviours": set(),
+           "operator_restores": 0, "session_steps": 0, "sessions": 0}
+    for idx in range(lo, hi):
+        st = run_session(seed, shard, idx)
+        agg["sessions"] += 1
+        for key in ("runs", "steps", "operator_restores", "session_steps"):
+            agg[key] += st[key]
+        agg["violations"].extend(st["violations"][:2])
+        for key in ("planned", "fired"):
+            for kind, num in st[key].items():
+                agg[key][kind] = agg[key].get(kind, 0) + num
+        agg["probes"] |= st["probes"]
+        agg["behaviours"] |= st["behaviours"]
+    return agg
+
+
+def replay_session_history(payload):
+    """Re-execute a recorded session; classes of its last step."""
+    fs = {p: (d.encode("utf-8") if isinstance(d, str) else d)
+          for p, d in payload["files0"].items()}
+    classes = []
+    res = None
+    for step in payload["session"]:
+        recipe = _session_recipe(step, fs, payload.get("knobs") or {})
+        fs0 = driver.initial_fs(recipe)
+        base = driver.execute(recipe)
+        if step["faults"]:
+            res = driver.execute(recipe, step["faults"])
+            classes = judge(recipe, fs0, res, True, base)
+        else:
+            res = base
+            classes = judge(recipe, fs0, res, False)
+        fs = dict(res.fs)
+        if classes:
+            break
+        from sim.util import strict_load
+        text = fs.get(SESSION_TARGET, b"").decode("utf-8", "replace")
+        okay = bool(text) and strict_load(text)[1]
+        if not okay or (res.exit != 0 and fs.get(SESSION_TARGET)
+                        != fs0.get(SESSION_TARGET)):
+            bak = fs.get(SESSION_TARGET + ".bak")
+            if step["meta"]["backup"] and bak == fs0[SESSION_TARGET]:
+                fs[SESSION_TARGET] = bak
+            else:
+                fs[SESSION_TARGET] = fs0[SESSION_TARGET]
+    return ["E:" + c for c in classes], res
+
 # ----------------------------------------------------------------------
 # minimisation and replay
 # ----------------------------------------------------------------------
@@ -357,7 +565,37 @@ def minimise(viol):
     return dict(viol, recipe=recipe, faults=faults)
 
 
+def write_session_violation(viol):
+    payload = {
+        "property": PROP, "engine": "tool-world", "mode": "session",
+        "violation_class": viol["class"], "session": viol["session"],
+        "knobs": viol["knobs"],
+        "files0": {SESSION_TARGET: "---\nsess:\n  k0: start\nlist:\n  - 0\n",
+                   gen_args.W + "other.yaml": "---\nbystander: 1\n"},
+        "repo": driver.repo_state(),
+    }
+    # drop earlier steps while the same class persists
+    steps = list(payload["session"])
+    changed = True
+    while changed:
+        changed = False
+        for i in range(len(steps) - 2, -1, -1):
+            cand = dict(payload, session=steps[:i] + steps[i + 1:])
+            try:
+                if viol["class"] in replay_session_history(cand)[0]:
+                    steps = cand["session"]
+                    changed = True
+            except Exception:  # pylint: disable=broad-except
+                pass
+    payload["session"] = steps
+    _classes, res = replay_session_history(payload)
+    payload["expect"] = {"event_log_sha256": res.digest(), "exit": res.exit}
+    return driver.write_replay(PROP, payload), payload
+
+
 def write_violation(viol):
+    if "session" in viol:
+        return write_session_violation(viol)
     viol = minimise(viol)
     _classes, res = classes_of(viol["recipe"], viol["faults"])
     recipe = {k: v for k, v in viol["recipe"].items()
@@ -379,7 +617,10 @@ def replay(path):
     import json
     with open(path, encoding="utf-8") as fhnd:
         payload = json.load(fhnd)
-    classes, res = classes_of(payload["recipe"], payload["faults"])
+    if payload.get("mode") == "session":
+        classes, res = replay_session_history(payload)
+    else:
+        classes, res = classes_of(payload["recipe"], payload["faults"])
     same_class = payload["violation_class"] in classes
     same_log = res.digest() == payload["expect"]["event_log_sha256"]
     print("replay: class %s %s; event log %s" % (
@@ -406,6 +647,7 @@ def main():
     parser.add_argument("--tier", default=None)
     parser.add_argument("--replay")
     parser.add_argument("--scenarios", type=int)
+    parser.add_argument("--sessions", type=int)
     parser.add_argument("--digest-only", action="store_true",
                         help="print per-scenario base digests (self-test)")
     parser.add_argument("--no-evidence", action="store_true")
@@ -428,6 +670,21 @@ def main():
     except driver.HarnessError as ex:
         print("HARNESS-ERROR: %s" % ex)
         sys.exit(2)
+    nsessions = 0 if args.digest_only else (
+        args.sessions if args.sessions is not None
+        else (600 if tier == "quick" else 40000))
+    session_results = []
+    if nsessions:
+        sper = (nsessions + nshards - 1) // nshards
+        spayloads = [(seed, s, s * sper, min(nsessions, (s + 1) * sper),
+                      tier) for s in range(nshards) if s * sper < nsessions]
+        try:
+            session_results = driver.run_shards(
+                session_shard, spayloads,
+                cap_s=600 if tier == "quick" else 7200)
+        except driver.HarnessError as ex:
+            print("HARNESS-ERROR: %s" % ex)
+            sys.exit(2)
     wall = time.time() - start
     agg = {"runs": 0, "steps": 0, "scenarios": 0, "mislabelled": 0,
            "planned": {}, "fired": {}, "probes": set(), "behaviours": set(),
@@ -445,6 +702,18 @@ def main():
         agg["samples"].extend(res["samples"])
         agg["digests"].extend(res["digests"])
         agg["mislabel_examples"].extend(res["mislabel_examples"])
+    sess = {"sessions": 0, "session_steps": 0, "operator_restores": 0}
+    for res in session_results:
+        for key in ("runs", "steps"):
+            agg[key] += res[key]
+        for key in sess:
+            sess[key] += res[key]
+        for key in ("planned", "fired"):
+            for kind, num in res[key].items():
+                agg[key][kind] = agg[key].get(kind, 0) + num
+        agg["probes"] |= res["probes"]
+        agg["behaviours"] |= res["behaviours"]
+        agg["violations"].extend(res["violations"])
     if args.digest_only:
         import hashlib
         text = "\n".join("%d %s" % d for d in sorted(agg["digests"]))
@@ -482,6 +751,9 @@ def main():
     print("scenarios=%d runs=%d steps=%d wall=%.1fs runs/hour=%.0f" % (
         agg["scenarios"], agg["runs"], agg["steps"], wall,
         agg["runs"] / max(wall, 1e-6) * 3600))
+    print("session mode: %d sessions, %d invocations, %d operator restores"
+          % (sess["sessions"], sess["session_steps"],
+             sess["operator_restores"]))
     print("faults fired: %s" % sorted(agg["fired"].items()))
     print("probes hit: %s" % sorted(agg["probes"]))
     print("distinct behaviours: %d; mislabelled scenarios: %d %s" % (
@@ -504,6 +776,7 @@ def main():
                     "role, exit class) tuples among runs whose fault FIRED",
             "samples": agg["samples"][:6],
             "scenarios": agg["scenarios"],
+            "session_mode": sess,
             "simulated_io_steps": agg["steps"],
             "runs_per_hour": round(agg["runs"] / max(wall, 1e-6) * 3600),
             "faults_planned": agg["planned"],
